@@ -387,6 +387,19 @@ def fam_fixed_counts(rng, tier="quick"):
             m = msg_v5(rng, k) if v == 5 else msg_v7(rng, k)
             tail = [msg_v5(rng, 1)] if rng.random() < 0.5 else []
             out.append(("fixed-count", [op_new(0), op_parse(0, msgs=[m] + tail)]))
+    # counts on both sides of the point where count * record size leaves 16 bits (the properties about V5/V7 put no bound on the
+    # buffer; a complete packet of that size is simply a long buffer), always followed by another packet, once also cut short
+    edge = {5: [1365, 1366], 7: [1260, 1261]}
+    if tier != "quick":
+        edge = {5: [1365, 1366, 1367, 2731, 5462], 7: [1260, 1261, 1262, 2521]}
+    for v in (5, 7):
+        for k in edge[v]:
+            m = msg_v5(rng, k) if v == 5 else msg_v7(rng, k)
+            o = op_parse(0, msgs=[m, msg_v5(rng, 1), msg_v7(rng, 1)], want=["export", "common"])
+            out.append(("fixed-count-wide", [op_new(0), o]))
+            o2 = op_parse(0, msgs=[m], want=["export"])
+            o2["cutfrac"] = 1000
+            out.append(("fixed-count-wide-cut", [op_new(0), o2]))
     return out
 
 
@@ -451,6 +464,108 @@ def fam_stream(rng, n, lossless=False, common=False, simple_ipfix=False, version
         out.append(("stream-wild" if wild else "stream", ops))
     return out
 
+
+
+# ------------------------------------------------------------------ small-scope exhaustive histories
+def _ss_alphabet(proto):
+    """a small alphabet of single-packet messages around ONE template id (256; 257 as the bystander), for the bounded-
+    exhaustive history family: two templates of the same record size but different layouts, a template with a field the
+    library has no type for, an options template, a rejected template, data sized for each layout, a data body shorter than a
+    record, a cut packet, a V5 packet.  value: (message, effect on the exporter's memory, what it needs to be conformant)"""
+    A = [{"typ": 1, "len": 4}, {"typ": 7, "len": 2}]                 # 6 bytes: octets, source port
+    B = [{"typ": 8, "len": 4}, {"typ": 4, "len": 1}, {"typ": 5, "len": 1}]   # 6 bytes: IPv4 source, protocol, tos
+    U = [{"typ": 1, "len": 4}, {"typ": 600, "len": 2}]               # 6 bytes, second field unknown to the library
+    S7 = [{"typ": 2, "len": 4}]
+    recA = [["0000ffff", "0050"], ["01020304", "ffff"]]
+    recB = [["0a000001", "06", "00"], ["c0a80101", "11", "ff"]]
+    recO = [["00000001", "0005"]]
+    rec7 = [["00000007"], ["ffffffff"]]
+    al = {}
+    if proto == 9:
+        def m(sets, k=1):
+            return {"v9": {"m": {"count": len(sets), "sysUpTime": k, "unixSecs": k, "seq": k, "sourceId": 1, "sets": sets}}}
+
+        def tpl(tid, fs):
+            return {"templates": {"ts": [{"id": tid, "fieldCount": len(fs), "fields": fs}], "pad": ""}}
+        al["Ta"] = (m([tpl(256, A)]), ("t", "A"), None)
+        al["Tb"] = (m([tpl(256, B)]), ("t", "B"), None)
+        al["Tu"] = (m([tpl(256, U)]), ("t", "U"), None)
+        al["Tz"] = (m([tpl(256, [{"typ": 1, "len": 0}])]), ("t", "Z"), None)             # V9 accepts a zero-size template
+        al["Oa"] = (m([{"optTemplates": {"ts": [{"id": 256, "scopeLen": 4, "optLen": 4, "scope": [{"typ": 1, "len": 4}], "opts": [{"typ": 1, "len": 2}]}], "pad": ""}}]), ("o", "O"), None)
+        al["T7"] = (m([tpl(257, S7)]), ("t7", "S"), None)
+        al["TD"] = (m([tpl(256, A), {"data": {"id": 256, "recs": recA, "pad": ""}}]), ("t", "A"), None)
+        hdr = (9).to_bytes(2, "big") + (1).to_bytes(2, "big") + bytes(16)
+        al["Dt"] = ({"raw": {"b": hx(hdr + (256).to_bytes(2, "big") + (40).to_bytes(2, "big") + bytes(6))}}, None, "raw")
+        al["Ds"] = ({"raw": {"b": hx(hdr + (256).to_bytes(2, "big") + (5).to_bytes(2, "big") + b"\x07")}}, None, "raw")
+    else:
+        def m(sets, k=1):
+            return {"ipfix": {"m": {"exportTime": k, "seq": k, "odid": 1, "sets": sets}}}
+
+        def tpl(tid, fs):
+            return {"templates": {"ts": [{"id": tid, "fields": [dict(f, ent=None) for f in fs]}], "pad": ""}}
+        al["Ta"] = (m([tpl(256, A)]), ("t", "A"), None)
+        al["Tb"] = (m([tpl(256, B)]), ("t", "B"), None)
+        al["Tu"] = (m([tpl(256, U)]), ("t", "U"), None)
+        al["Tz"] = (m([tpl(256, [{"typ": 82, "len": 0}])]), None, "raw")                 # rejected: no field of non-zero length
+        al["Tw"] = (m([tpl(256, [])]), None, "raw")                                      # rejected: withdrawal-shaped, no fields
+        al["Oa"] = (m([{"optTemplates": {"ts": [{"id": 256, "scopeCount": 1, "fields": [{"typ": 1, "len": 4, "ent": None}, {"typ": 2, "len": 2, "ent": None}]}], "pad": ""}}]), ("o", "O"), None)
+        al["T7"] = (m([tpl(257, S7)]), ("t7", "S"), None)
+        al["TD"] = (m([tpl(256, A), {"data": {"id": 256, "recs": [[{"content": c, "form": "fixed"} for c in r] for r in recA], "pad": ""}}]), ("t", "A"), None)
+        hdr = (10).to_bytes(2, "big")
+        al["Dt"] = ({"raw": {"b": hx(hdr + (60).to_bytes(2, "big") + bytes(12) + (256).to_bytes(2, "big") + (12).to_bytes(2, "big") + bytes(4))}}, None, "raw")
+        al["Ds"] = ({"raw": {"b": hx(hdr + (21).to_bytes(2, "big") + bytes(12) + (256).to_bytes(2, "big") + (5).to_bytes(2, "big") + b"\x07")}}, None, "raw")
+
+    def data(tid, recs, pad=""):
+        if proto == 10:
+            recs = [[{"content": c, "form": "fixed"} for c in r] for r in recs]
+        return m([{"data": {"id": tid, "recs": recs, "pad": pad}}], 2)
+    al["Da"] = (data(256, recA), None, ("t", "A"))
+    al["Db"] = (data(256, recB), None, ("t", "B"))
+    al["Do"] = (data(256, recO), None, ("o", "O"))
+    al["D7"] = (data(257, rec7), None, ("t7", "S"))
+    al["V5"] = ({"v5": {"m": {"sysUpTime": 1, "unixSecs": 2, "unixNsecs": 3, "flowSequence": 4, "engineType": 0, "engineId": 0, "samplingInterval": 0, "recs": []}}}, None, None)
+    return al
+
+
+def fam_smallscope(rng, n, protos=(9, 10), maxlen=3, want=WANT_ALL, exhaustive=False):
+    """bounded-exhaustive histories: every sequence of at most `maxlen` letters of `_ss_alphabet` (quick tier: a seeded sample
+    of n of them per protocol) as separate parse_bytes calls on one parser (a third of them joined into ONE call), followed by
+    two probe calls with data for id 256.  The spec oracle applies while every data message is sized for the template the
+    exporter announced last; from the first other message on the ops are `nospec` (correspondence and the remaining oracles)."""
+    import itertools
+    out = []
+    v5 = msg_v5(random.Random(5), 1)
+    for proto in protos:
+        al = _ss_alphabet(proto)
+        al["V5"] = (v5, None, None)
+        letters = sorted(al)
+        seqs = [s for L in range(2, maxlen + 1) for s in itertools.product(letters, repeat=L)]
+        if not exhaustive and len(seqs) > n:
+            seqs = rng.sample(seqs, n)
+        for seq in seqs:
+            mem, dirty = {}, False
+            ops = [op_new(0)]
+            joined = rng.random() < 0.33
+            msgs_all = []
+            for L in list(seq) + ["Da", "Do"]:
+                msg, eff, need = al[L]
+                if need == "raw" or (need is not None and mem.get("7" if need[0] == "t7" else "x") != need):
+                    dirty = True
+                if L in ("Tz",) and proto == 9:
+                    dirty = True                       # zero-size V9 template: outside the conformance predicate
+                if eff is not None:
+                    mem["7" if eff[0] == "t7" else "x"] = eff
+                if joined and L in seq:
+                    msgs_all.append(msg)
+                    continue
+                if msgs_all:
+                    o = op_parse(0, msgs=msgs_all, want=list(want)); o["nospec"] = True; ops.append(o); msgs_all = []
+                o = op_parse(0, msgs=[msg], want=list(want))
+                if dirty or joined:
+                    o["nospec"] = True
+                ops.append(o)
+            out.append(("smallscope-%d%s" % (proto, "-joined" if joined else ""), ops))
+    return out
 
 # ------------------------------------------------------------------ relational families
 def rand_packets(rng, ex, n, versions=(5, 7, 9, 10)):
@@ -629,6 +744,36 @@ def fam_filter(rng, n):
             a["c"] = 2
         ops.append(a)
         out.append(("filter", ops))
+    return out
+
+
+def fam_filter_sweep(rng):
+    """C12, swept instead of sampled: EVERY subset of {5,7,9,10} (16), with and without an allowed decoder-less version, against
+    buffers that start with / contain a packet of that decoder-less version, a one-byte buffer, an empty buffer and a real packet
+    of every version — so the sets {}, {12}, {5,12}, … and the unknown-version error for an allowed number are always exercised"""
+    out = []
+    ex = Exporter(rng, lossless=True, simple_ipfix=True)
+    real = {5: msg_v5(rng, 1), 7: msg_v7(rng, 1), 9: ex.v9_msg(nsets=1), 10: ex.ip_msg(nsets=1)}
+    for mask in range(16):
+        base = [v for j, v in enumerate((5, 7, 9, 10)) if mask >> j & 1]
+        for extra in ([], [12], [3, 12], [0], [65535]):
+            S = base + extra
+            u = (extra or [12])[0]
+            bufs = [[raw_version_msg(rng, u)], [real[rng.choice([5, 7, 9, 10])], raw_version_msg(rng, u)], [raw_version_msg(rng, u), real[5]],
+                    [real[5], real[7], real[9], real[10]], [real[10], real[9]]]
+            ops = []
+            for pid in (0, 1):
+                ops.append(op_new(pid, allowed="all"))
+            ops.append({"op": "allowed", "p": 0, "set": S})
+            for msgs in bufs:
+                ops.append(op_parse(0, msgs=msgs, want=[]))
+                ops.append(op_parse(1, msgs=msgs, want=[]))
+                ops.append({"op": "assert_filter", "a": 0, "b": 1})
+            for hexs in ("00", "", "000c"):
+                o = op_parse(0, hexs=hexs, want=[]); ops.append(o)
+                o = op_parse(1, hexs=hexs, want=[]); ops.append(o)
+                ops.append({"op": "assert_filter", "a": 0, "b": 1})
+            out.append(("filter-sweep", ops))
     return out
 
 
@@ -1106,6 +1251,51 @@ def fam_common(rng, n):
     return out
 
 
+def fam_sizes(rng, tier="quick", want=("export", "common", "json")):
+    """size thresholds, swept: every variable-size part of a result — the undecoded bytes of an error element (all three error kinds),
+    a variable-length string / byte-vector value, the padding of a data flowset, a whole buffer — at lengths on both sides of the powers
+    of two from 2^8 to 2^16 (and the harvested literals), so that a cap, a fixed-size scratch area or a narrower integer somewhere is met"""
+    out = []
+    want = list(want)
+    sizes = sorted(set([255, 256, 257, 511, 512, 513, 1023, 1024, 1025, 1500, 2047, 2048, 2049, 4095, 4096, 4097, 8191, 8192, 8193, 16383, 16384, 16385,
+                        32767, 32768, 32769, 65000, 65500] + [v for v in LITERALS if 300 <= v <= 65500]))
+    if tier == "quick":
+        sizes = [n for n in sizes if n in (255, 256, 257, 1023, 1024, 1025, 2047, 2048, 2049, 4096, 4097, 8193, 16385, 32769, 65000)] + [v for v in LITERALS if 300 <= v <= 65500][:6]
+    str_f = (IP_BY_TY.get("str") or [82])[0]
+    vec_f = (IP_BY_TY.get("vec") or [IP_BY_TY.get("unknown", [600])[0]])[0]
+    for nbytes in sizes:
+        body = rbytes(rng, nbytes)
+        ops = [op_new(0, allowed=[5, 7, 9, 10, 12])]
+        # (1) unknown (allowed) version word followed by n bytes; (2) a V5 header announcing more records than the n bytes hold;
+        # (3) V9 data for an id nobody announced; (4) one byte (Incomplete) — each after a complete packet in the same buffer
+        pre = msg_v5(rng, 1)
+        for raw in ((12).to_bytes(2, "big") + body,
+                    (5).to_bytes(2, "big") + (60000).to_bytes(2, "big") + body,
+                    (9).to_bytes(2, "big") + (1).to_bytes(2, "big") + bytes(16) + (999).to_bytes(2, "big") + min(nbytes + 4, 65535).to_bytes(2, "big") + body):
+            o = op_parse(0, msgs=[pre, {"raw": {"b": hx(raw)}}], want=want); o["nospec"] = True; ops.append(o)
+        out.append(("sizes-error-%d" % nbytes, ops))
+        if nbytes <= 65000:
+            # (5) variable-length string and byte-vector values of that length (3-byte length prefix), (6) V9 padding of that length
+            t = {"id": 256, "fields": [{"typ": str_f, "len": 65535, "ent": None}, {"typ": vec_f, "len": 65535, "ent": 9}, {"typ": 1, "len": 4, "ent": None}]}
+            tm = {"ipfix": {"m": {"exportTime": 1, "seq": 1, "odid": 1, "sets": [{"templates": {"ts": [t], "pad": ""}}]}}}
+            half = nbytes // 2
+            rec = [{"content": hx(bytes(rng.choice(b"abcXYZ019 _-") for _ in range(half))), "form": "long"},
+                   {"content": hx(rbytes(rng, nbytes - half - 20 if nbytes - half > 40 else 3)), "form": "long"}, {"content": "0000002a", "form": "fixed"}]
+            data = {"ipfix": {"m": {"exportTime": 2, "seq": 2, "odid": 1, "sets": [{"data": {"id": 256, "recs": [rec], "pad": ""}}]}}}
+            o1 = op_parse(0, msgs=[tm], want=[]); o1["nospec"] = True
+            o2 = op_parse(0, msgs=[data], want=want); o2["nospec"] = True
+            ops2 = [op_new(0), o1, o2]
+            if nbytes < 65000:
+                big = {"id": 300, "fieldCount": 2, "fields": [{"typ": 1, "len": 4}, {"typ": 94, "len": min(nbytes, 60000)}]}
+                t9 = {"v9": {"m": {"count": 1, "sysUpTime": 1, "unixSecs": 1, "seq": 1, "sourceId": 1, "sets": [{"templates": {"ts": [big], "pad": ""}}]}}}
+                d9 = {"v9": {"m": {"count": 1, "sysUpTime": 2, "unixSecs": 2, "seq": 2, "sourceId": 1, "sets": [{"data": {"id": 300, "recs": [], "pad": hx(rbytes(rng, min(nbytes, 60000) + 3))}}]}}}
+                o3 = op_parse(0, msgs=[t9], want=[]); o3["nospec"] = True
+                o4 = op_parse(0, msgs=[d9], want=want); o4["nospec"] = True
+                ops2 += [o3, o4]
+            out.append(("sizes-value-%d" % nbytes, ops2))
+    return out
+
+
 def fam_json(rng, n):
     """C16: every kind of result (all versions, errors with arbitrary remaining bytes, 128-bit counters,
     NaN/infinite floats, non-UTF-8 strings, empty values) serialised twice and on a twin parser"""
@@ -1233,7 +1423,7 @@ def fam_extremal(rng, tier):
     o = op_parse(0, msgs=[many], want=[]); o["nospec"] = True; ops.append(o)
     out.append(("extremal-large-cache-%d" % ncache, ops))
     # (c4) ONE flowset / set packed with many template records of each kind (cost must stay linear in their number)
-    for M in ([2000] if tier == "quick" else [500, 1000, 2000, 4000]):
+    for M in ([2000] if tier == "quick" else [500, 1000, 2000, 4000, 5000]):
         v9_ts = [{"id": 256 + i, "fieldCount": 1, "fields": [{"typ": 1, "len": 4}]} for i in range(M)]
         v9_os = [{"id": 256 + i, "scopeLen": 4, "optLen": 4, "scope": [{"typ": 1, "len": 4}], "opts": [{"typ": 1, "len": 4}]} for i in range(M)]
         ip_ts = [{"id": 256 + i, "fields": [{"typ": 1, "len": 4, "ent": None}]} for i in range(M)]
@@ -1248,7 +1438,31 @@ def fam_extremal(rng, tier):
             o["nospec"] = True
             o2 = op_parse(0, msgs=[msg], want=[])         # the same definitions again: redefinition of a full cache
             o2["nospec"] = True
-            out.append(("extremal-many-%s-%d" % (nm, M), [op_new(0), o, o2]))
+            # ... then, against the cache filled with ONE kind: a definition of the OTHER kind under a fresh id and under a cached id,
+            # a redefinition of the same kind, and data of every kind (any bookkeeping keyed to the cache size / to one of the two maps)
+            fresh, old = 256 + M + 7, 256 + 3
+            if nm.startswith("v9"):
+                def v9m(sets):
+                    return {"v9": {"m": {"count": len(sets), "sysUpTime": 3, "unixSecs": 3, "seq": 3, "sourceId": 1, "sets": sets}}}
+                tpl = lambda i: {"templates": {"ts": [{"id": i, "fieldCount": 1, "fields": [{"typ": 2, "len": 4}]}], "pad": ""}}
+                opt = lambda i: {"optTemplates": {"ts": [{"id": i, "scopeLen": 4, "optLen": 4, "scope": [{"typ": 1, "len": 4}], "opts": [{"typ": 2, "len": 4}]}], "pad": ""}}
+                dat = lambda i, n: {"data": {"id": i, "recs": [["0000002a"] * n], "pad": ""}}
+                tail = [v9m([opt(fresh)]), v9m([tpl(fresh + 1)]), v9m([dat(fresh, 2)]), v9m([dat(fresh + 1, 1)]), v9m([opt(old)]), v9m([tpl(old + 1)]),
+                        v9m([dat(old, 2)]), v9m([dat(old + 1, 1)]), v9m([dat(256 + 9, 1)])]
+            else:
+                def ipm(sets):
+                    return {"ipfix": {"m": {"exportTime": 3, "seq": 3, "odid": 1, "sets": sets}}}
+                tpl = lambda i: {"templates": {"ts": [{"id": i, "fields": [{"typ": 2, "len": 4, "ent": None}]}], "pad": ""}}
+                opt = lambda i: {"optTemplates": {"ts": [{"id": i, "scopeCount": 1, "fields": [{"typ": 1, "len": 4, "ent": None}, {"typ": 2, "len": 4, "ent": None}]}], "pad": ""}}
+                dat = lambda i, n: {"data": {"id": i, "recs": [[{"content": "0000002a", "form": "fixed"}] * n], "pad": ""}}
+                tail = [ipm([opt(fresh)]), ipm([tpl(fresh + 1)]), ipm([dat(fresh, 2)]), ipm([dat(fresh + 1, 1)]), ipm([opt(old)]), ipm([tpl(old + 1)]),
+                        ipm([dat(old, 2)]), ipm([dat(old + 1, 1)])]
+            tops = []
+            for tm_ in tail:
+                ot = op_parse(0, msgs=[tm_], want=["export"])
+                ot["nospec"] = True
+                tops.append(ot)
+            out.append(("extremal-many-%s-%d" % (nm, M), [op_new(0), o, o2] + tops))
     # (d) headers announcing 65535 records / fields over short bodies
     for h in ["0005ffff" + "00" * 20, "0007ffff" + "00" * 20, "0009ffff" + "00" * 16, "000a0014" + "00" * 12 + "0002ffff", "000a0018" + "00" * 12 + "00020008" + "0100ffff",
               "0009000100000000000000000000000000000000" + "00000008" + "0100ffff", "000a001a" + "00" * 12 + "0003000a" + "0100ffffffff"]:
